@@ -106,6 +106,11 @@ func (p *Plenc) CodecForTypeRegistry(registry plenccodec.CodecRegistry, typ refl
 
 	switch typ.Kind() {
 	case reflect.Ptr:
+		if typ.Elem().Kind() == reflect.Map {
+			// The map codec expects the map itself when writing, not a pointer to
+			// it, and PointerWrapper can't provide that.
+			return nil, fmt.Errorf("pointers to maps are not supported")
+		}
 		subc, err := p.CodecForTypeRegistry(registry, typ.Elem(), tag)
 		if err != nil {
 			return nil, err
@@ -137,6 +142,11 @@ func (p *Plenc) CodecForTypeRegistry(registry plenccodec.CodecRegistry, typ refl
 			}
 			c = plenccodec.WTFixedSliceWrapper{BaseSliceWrapper: bs}
 		case plenccore.WTLength:
+			if _, ok := subc.(plenccodec.ProtoSliceWrapper); ok {
+				// The elements would themselves be written as repeated fields, so
+				// there would be no way to tell where one element ends.
+				return nil, fmt.Errorf("slices of slices of structs or strings are not supported")
+			}
 			if p.ProtoCompatibleArrays || tag == "proto" {
 				// When writing we just want to repeat the encoding of an
 				// individual element within the slice as if it was a separate
